@@ -6,6 +6,7 @@ for ID in "$@"; do
   for S in /verif/seeded/$ID-*; do
     N=${S##*-}
     [ "$N" -ge "${SEEDS_MIN_N:-0}" ] || continue
+    [ "$N" -le "${SEEDS_MAX_N:-999}" ] || continue
     cd "$W" || exit 2
     git checkout -q -- .
     PYTHONPATH=$W /venv/bin/python "$S/demo.py" >/dev/null 2>&1; CLEAN=$?
